@@ -24,7 +24,7 @@ WFCQ = {
     "spec": "Wfcq", "driver": "d_wfcq.c", "trace": "WfcqTrace",
     "invariants": ["Linearizable", "Conservation"], "mc_invariants": ["DeadlockFree"], "constraints": ["SBBound"],
     "consts": lambda sc: {"Threads": tla(set(sc["threads"])), "Prog": tla_fun(sc["threads"]), "SBMax": str(sc.get("sbmax", 2))},
-    "program": wfcq_program,
+    "program": wfcq_program, "normalize": {"extra_fields": ("ws",)},
 }
 
 
